@@ -1,5 +1,6 @@
 import PqlModel.Props.C01
 import PqlModel.Props.C01LexRender
+import PqlModel.Props.C01Sem
 #print axioms Pql.C01.C01_parens_write
 #print axioms Pql.C01.C01_parens_wrap
 #print axioms Pql.C01.C01_unparen_write
@@ -17,3 +18,5 @@ import PqlModel.Props.C01LexRender
 #print axioms Pql.C01.writeExpr_no_leading_minus
 #print axioms Pql.LexRender.lexRender_of_adj
 #print axioms Pql.LexRender.lexRender_of_adj_top
+#print axioms Pql.C01.C01_eq_never_null
+#print axioms Pql.C01.C01_ne_never_null
